@@ -248,6 +248,18 @@ func apiScenarios() []apiScenario {
 			f.NewBlock("entry").NewRet(e)
 		}, []string{"@p = global i8** getelementptr inbounds ({ [4 x i8*], [2 x i8*] }, { [4 x i8*], [2 x i8*] }* @vt, i32 0, inrange i32 1, i32 1)",
 			"ret i8** getelementptr inbounds ({ [4 x i8*], [2 x i8*] }, { [4 x i8*], [2 x i8*] }* @vt, i32 0, inrange i32 1, i32 1)"}},
+		// the address of an UNNAMED block in the initializer of a global variable, which is printed before the function is: the IDs of the blocks
+		// are those the function prints (behind an unnamed parameter and the entry block), on the FIRST print
+		{"blockaddress-unnamed-block-before-function", func(m *ir.Module, expect func(value.Value, string)) {
+			f := m.NewFunc("f", types.Void, ir.NewParam("", types.I32))
+			b0, b1, b2 := f.NewBlock(""), f.NewBlock(""), f.NewBlock("")
+			b0.NewBr(b1)
+			b1.NewBr(b2)
+			b2.NewRet(nil)
+			tbl := constant.NewArray(types.NewArray(2, types.I8Ptr), constant.NewBlockAddress(f, b1), constant.NewBlockAddress(f, b2))
+			expect(tbl, "[2 x i8*]")
+			m.NewGlobalDef("tbl", tbl)
+		}, []string{"@tbl = global [2 x i8*] [i8* blockaddress(@f, %2), i8* blockaddress(@f, %3)]"}},
 	}
 }
 
